@@ -212,7 +212,15 @@ class Monitors:
             if not os.path.exists(p):
                 return None
             with open(p, 'rb') as f:
-                return f.read().decode('latin-1')
+                raw = f.read()
+            for suffix, modname in (('.gz', 'gzip'), ('.bz2', 'bz2'), ('.xz', 'lzma')):
+                if p.endswith(suffix):
+                    import importlib
+                    try:
+                        raw = importlib.import_module(modname).decompress(raw)
+                    except Exception:  # noqa: BLE001  plain text under a compressed name: load will fail
+                        pass
+            return raw.decode('latin-1')
         return ('path', p), kind, 'universal', read
 
     # ---- my reading of "data the format cannot represent" -----------------
@@ -679,9 +687,13 @@ class Env:
         self.tmp, self.save, self.load, self.mon, self.ctx, self.tier = tmp, scn_save, scn_load, mon, ctx, tier
         self.nfile = 0
 
-    def fresh_path(self):
+    def fresh_path(self, compressed_ok=False):
         self.nfile += 1
-        return os.path.join(self.tmp, f'f{self.nfile}.xye')
+        # numpy compresses / decompresses by file name; such names are legitimate path targets
+        suffix = ''
+        if compressed_ok and self.nfile % 7 == 0:
+            suffix = ['.gz', '.bz2', '.xz'][(self.nfile // 7) % 3]
+        return os.path.join(self.tmp, f'f{self.nfile}.xye{suffix}')
 
     def open_target(self, kind):
         """-> (object handed to save_xye, path or None, closer)"""
@@ -689,7 +701,7 @@ class Env:
             return io.StringIO(), None, None
         if kind == 'stringio_universal':
             return io.StringIO(newline=None), None, None
-        p = self.fresh_path()
+        p = self.fresh_path(compressed_ok=kind in ('path_str', 'path_pathlib'))
         if kind == 'path_str':
             return p, p, None
         if kind == 'path_pathlib':
@@ -817,7 +829,11 @@ def build_refuse(rng, cls):
         for j in range(int(rng.integers(1, 3))):
             m = rng.random(n) < 0.4
             m[int(rng.integers(0, n))] = True
-            da.masks['m%d' % j] = sc.array(dims=[dim], values=m)
+            if da.ndim == 1 and rng.random() < 0.3:
+                # a mask without the data dimension (a whole-spectrum flag, e.g. left over from slicing)
+                da.masks['m%d' % j] = sc.scalar(bool(rng.random() < 0.7))
+            else:
+                da.masks['m%d' % j] = sc.array(dims=[dim], values=m)
     if rng.random() < 0.5:
         kw['header'] = ['', 'refused?', '1 2 3\n4 5 6'][int(rng.integers(0, 3))]
     return da, kw, parts
